@@ -45,7 +45,7 @@ func c11Gen(t *rapid.T) interface{} {
 		c.Corpus = smallCorpusAround(t, c.X.docs())
 	}
 	if lib.IntN(t, 0, 1, "withXforms") == 0 {
-		c.Ts = genXforms(t, []string{"upper", "altcase", "indent", "blankline", "decorate", "trailing", "crlf", "multiblank", "dotdot", "dotdot", "nbsp", "nbsp", "nbsp"}, 2)
+		c.Ts = genXforms(t, []string{"upper", "altcase", "indent", "blankline", "decorate", "trailing", "crlf", "multiblank", "dotdot", "dotdot", "dotdash", "dotdash", "nbsp", "nbsp", "nbsp"}, 2)
 	}
 	return c
 }
